@@ -139,13 +139,25 @@ fn case_typed<F: Family>(input: &Input, ctx: &mut Ctx) -> CaseResult {
     entry_points::<F>(&p, &mut t, ctx)
 }
 
+/// boundary-size constructions of sized.rs through every encoder entry point
+fn case_sized<F: Family>(input: &Input, ctx: &mut Ctx) -> CaseResult {
+    let seed: Vec<u16> = input.nums().iter().map(|x| (*x as u16).wrapping_mul(40_503)).collect();
+    let mut t = Tape::new(&seed);
+    match crate::sized::from_input::<F>(input, ctx) {
+        Some(p) => entry_points::<F>(&p, &mut t, ctx),
+        None => Ok(()),
+    }
+}
+
+pub const SUB_S3: Sub = Sub { name: "c09.sized.v3", f: case_sized::<V3> };
+pub const SUB_S5: Sub = Sub { name: "c09.sized.v5", f: case_sized::<V5> };
 pub const SUB_V3: Sub = Sub { name: "c09.entry.v3", f: case::<V3> };
 pub const SUB_V5: Sub = Sub { name: "c09.entry.v5", f: case::<V5> };
 pub const SUB_T3: Sub = Sub { name: "c09.typed.v3", f: case_typed::<V3> };
 pub const SUB_T5: Sub = Sub { name: "c09.typed.v5", f: case_typed::<V5> };
 
 pub fn subs() -> Vec<Sub> {
-    vec![SUB_V3, SUB_V5, SUB_T3, SUB_T5]
+    vec![SUB_V3, SUB_V5, SUB_T3, SUB_T5, SUB_S3, SUB_S5]
 }
 
 pub fn run(env: &mut Env) -> RunResult {
@@ -154,6 +166,14 @@ pub fn run(env: &mut Env) -> RunResult {
     env.run_tapes(SUB_V5, n * 2, 240)?;
     env.run_tapes(SUB_T3, n / 2, 140)?;
     env.run_tapes(SUB_T5, n, 240)?;
+    let s3 = crate::sized::inputs(crate::model::Fam::V3, env.thorough());
+    let n3 = s3.len() as u64;
+    env.run_enum(SUB_S3, n3, false, move |i| s3[i as usize].clone())?;
+    let s5 = crate::sized::inputs(crate::model::Fam::V5, env.thorough());
+    let n5 = s5.len() as u64;
+    env.run_enum(SUB_S5, n5, false, move |i| s5[i as usize].clone())?;
+    env.require("c09.sized.v5", "sized:2MiB-boundary");
+    env.require("c09.sized.v3", "sized:2MiB-boundary");
     for s in ["c09.entry.v3", "c09.entry.v5"] {
         env.require(s, "partial-writes");
         env.require(s, "sink-pending-observed");
